@@ -75,6 +75,12 @@ func (m *C05Monitor) AfterPass(r *Runner, pv *PassView) error {
 			continue
 		}
 		if c.Key.Group == engine.PKOGroup {
+			// "deleted with orphan propagation: nothing is deleted at all" includes the ObjectSetPhase of a delegated phase:
+			// deleting it makes the phase controller (which sees no orphan finalizer on the phase) delete the phase's objects
+			if orphan && c.Verb == "delete" && !c.DryRun && c.Key != pv.OwnerKey {
+				return Violf("C05", "write-during-orphan-deletion",
+					"pass %d: %s is being deleted with orphan propagation but PKO issued %s on %s", pv.P.ID, ownerID.Name, c.Verb, c.Key)
+			}
 			continue
 		}
 		if c.Verb == "get" && c.Resp != nil {
